@@ -58,13 +58,30 @@ func runC20(c *core.Ctx) *core.Outcome {
 	if cfg.OutputSize > 0 && cfg.OutputSize < 60 {
 		cfg.OutputSize = 0
 	}
-	a := app.Generate(t, c20Profile(t, cfg.FlagCount))
+	var a *app.App
+	var scripted [][]byte
+	if t.Chance(1, 150) {
+		// a session that ends gracefully deep down - at, or one short of, the deepest level there is
+		a = deepEndApp(t)
+		down := []int{126, 125, 126, 60}[t.Int(4)]
+		for k := 0; k < down; k++ {
+			scripted = append(scripted, []byte("1"))
+		}
+		scripted = append(scripted, []byte("7"), []byte("0"), []byte{}, []byte("1"))
+		cfg.ResetOnEmpty = false
+		o.Probes["deep_end_run"]++
+	} else {
+		a = app.Generate(t, c20Profile(t, cfg.FlagCount))
+	}
 	if err := a.Validate(); err != nil {
 		panic("generator produced ill-formed app: " + err.Error())
 	}
 	r := newModelRun(a, cfg, true)
 	defer r.w.Close()
 	nreq := t.Range(3, 16)
+	if len(scripted) > 0 {
+		nreq = len(scripted) + 1 + t.Int(3)
+	}
 	afterEnd := 0
 	blockSnap := ""
 	blockedSeen := 0
@@ -75,6 +92,9 @@ func runC20(c *core.Ctx) *core.Outcome {
 		cur := r.curNode()
 		if i > 0 {
 			in = genInput(t, a, cur, 1)
+		}
+		if i > 0 && i-1 < len(scripted) {
+			in = scripted[i-1]
 		}
 		clear := t.Chance(1, 6)
 		tplFault := t.Chance(1, 8)
